@@ -267,6 +267,24 @@ impl Prop for C01 {
                 },
             ));
             f.push(Family::new(
+                "user-families",
+                Mode::Full,
+                "calculators that carry user unit families added through the API - one whose lowest item has index 0 (zaa 0, zbb 1, zcc 2), one whose words collide with built-in units (troy-weight), the bystander family 'fmt' - x every ordered pair of their units and of [kg, lb] in 'N A to B', 'N A + M B', 'N A / M B', 'N A B' for N in [1, 0, -5, 1e20]: returns normally",
+                move |ch| {
+                    let units = ["zaa", "zbb", "zcc", "gr", "dwt", "oz", "lb", "kg", "qq"];
+                    let a = *ch.pick(&units);
+                    let b = *ch.pick(&units);
+                    let n = *ch.pick(&["1", "0", "-5", "100000000000000000000"]);
+                    let text = match ch.choose(4) {
+                        0 => format!("{} {} to {}", n, a, b),
+                        1 => format!("{} {} + 3 {}", n, a, b),
+                        2 => format!("{} {} / 3 {}", n, a, b),
+                        _ => format!("{} {} {}", n, a, b),
+                    };
+                    Some(Case { cfg: Cfg { zero_unit: true, troy: true, user_unit: Some((2, true, true)), ..Default::default() }, lang: "en".into(), now: None, text, independent: true })
+                },
+            ));
+            f.push(Family::new(
                 "every-operator-character",
                 Mode::Full,
                 "the tokenizer takes every character that is no digit, letter or blank as an operator: every ordered pair of the number, percentage and money boundary values (thorough: of all kinds) joined by each ASCII punctuation character and by the symbols [x-times, division sign, minus sign, middle dot, not-equal, euro-less currency sign], with blanks around it and without: returns normally",
